@@ -594,10 +594,13 @@ def main():
                 violations.append((path_s, suffix_s))
             m_s = re.search(r"cases=(\d+) disagree=(\d+) monitor-fail=(\d+)", out_s)
             m_p = re.search(r"proof stage: (\d+)/(\d+)", out_s)
+            m_c = re.search(r"^SUBCOV (.*)$", out_s, flags=re.M)
             sub_results[sub] = {"exit": rc_s, "cases": int(m_s.group(1)) if m_s else 0,
                                 "disagreements": int(m_s.group(2)) if m_s else None,
                                 "theorems_discharged": int(m_p.group(1)) if m_p else 0,
                                 "theorems": int(m_p.group(2)) if m_p else 0}
+            if m_c:
+                sub_results[sub]["anchor_statement_coverage"] = json.loads(m_c.group(1))
             if rc_s != 0 and not vl:
                 payload = {"property": P.ID, "kind": "broken-obligation", "sub_check": sub,
                            "explanation": "sub-check %s failed without a replay" % sub,
@@ -642,6 +645,14 @@ def main():
         if "coqchk_s" in pr:
             cov["coqchk"] = {"wall_s": pr["coqchk_s"], "rc": pr["coqchk_rc"], "tail": pr["coqchk_tail"][-12:]}
         cr = coverage_report(P, os.path.join(workdir, "cov"))
+        if a.as_prop and cr:
+            print("SUBCOV " + json.dumps(cr))
+        for sub, sr in sub_results.items():
+            # a sub-check drives other parts of the same anchor files: per file, the better of the two
+            for f, v in (sr.pop("anchor_statement_coverage", None) or {}).items():
+                cr = cr or {}
+                if f not in cr or v["covered"] > cr[f]["covered"]:
+                    cr[f] = dict(v, by_sub_check=sub)
         if cr:
             cov["anchor_statement_coverage"] = cr
         if sub_results:
